@@ -1,8 +1,8 @@
 // fragment: the validating number skipper (included by skip_number and recognisers)
 //@extract file=src/parser.rs impl="Parser<R>" fn=skip_single_digit
 //@sig
-        requires old(self).read.wf(),
-        ensures final(self).read.wf(), final(self).read.data() == old(self).read.data(),
+        requires old(self).pinv(),
+        ensures final(self).pinv(), final(self).same_doc(old(self)), final(self).same_cache(old(self)),
             res.is_ok() <==> dig_at(old(self).read.data(), old(self).read.idx() as int),
             res.is_ok() ==> final(self).read.idx() == old(self).read.idx() + 1 && res.unwrap() == old(self).read.data()[old(self).read.idx() as int],
             final(self).read.idx() <= old(self).read.idx() + 1,
@@ -12,13 +12,14 @@
 
 //@extract file=src/parser.rs impl="Parser<R>" fn=skip_exponent
 //@sig
-        requires old(self).read.wf(), old(self).read.idx() <= old(self).read.data().len(),
-        ensures final(self).read.wf(), final(self).read.data() == old(self).read.data(),
+        requires old(self).pinv(),
+        ensures final(self).pinv(), final(self).same_doc(old(self)), final(self).same_cache(old(self)),
+            final(self).read.idx() >= old(self).read.idx(),
             res.is_ok() <==> exp_end(old(self).read.data(), old(self).read.idx() as int).is_some(),
             res.is_ok() ==> final(self).read.idx() == exp_end(old(self).read.data(), old(self).read.idx() as int).unwrap(),
             final(self).read.idx() <= old(self).read.data().len(),
 //@loop 1
-            invariant self.read.wf(), self.read.data() == old(self).read.data(),
+            invariant self.pinv(), self.same_doc(old(self)), self.same_cache(old(self)), self.read.idx() >= old(self).read.idx(),
               self.read.idx() <= self.read.data().len(),
               exp_end(old(self).read.data(), old(self).read.idx() as int) == Some(digits_end(self.read.data(), self.read.idx() as int)),
             decreases self.read.data().len() - self.read.idx(),
@@ -26,16 +27,16 @@
 
 //@extract file=src/parser.rs impl="Parser<R>" fn=do_skip_number
 //@sig
-        requires old(self).read.wf(), old(self).read.idx() >= 1,
-            old(self).read.idx() <= old(self).read.data().len(),
+        requires old(self).pinv(), old(self).read.idx() >= 1,
             first == old(self).read.data()[old(self).read.idx() - 1],
             first == 0x2d || is_digit(first),
-        ensures final(self).read.wf(), final(self).read.data() == old(self).read.data(),
+        ensures final(self).pinv(), final(self).same_doc(old(self)), final(self).same_cache(old(self)),
+            final(self).read.idx() >= old(self).read.idx(),
             res.is_ok() <==> number_end(old(self).read.data(), old(self).read.idx() - 1).is_some(),
             res.is_ok() ==> final(self).read.idx() == number_end(old(self).read.data(), old(self).read.idx() - 1).unwrap(),
             final(self).read.idx() <= old(self).read.data().len(),
 //@loop 1
-            invariant self.read.wf(), self.read.data() == old(self).read.data(),
+            invariant self.pinv(), self.same_doc(old(self)), self.same_cache(old(self)), self.read.idx() >= old(self).read.idx(),
                 self.read.idx() <= self.read.data().len(),
                 number_end(old(self).read.data(), old(self).read.idx() - 1) == num_tail(self.read.data(), self.read.idx() as int, is_float),
             decreases self.read.data().len() - self.read.idx(),
@@ -101,12 +102,12 @@
                 lemma_digits_run(self.read.data(), self.read.idx() as int, 32);
             }
 //@loop 2
-            invariant self.read.wf(), self.read.data() == old(self).read.data(),
+            invariant self.pinv(), self.same_doc(old(self)), self.same_cache(old(self)), self.read.idx() >= old(self).read.idx(),
                 self.read.idx() <= self.read.data().len(),
                 number_end(old(self).read.data(), old(self).read.idx() - 1) == num_tail(self.read.data(), self.read.idx() as int, is_float),
             decreases self.read.data().len() - self.read.idx(),
 //@loop 3
-            invariant self.read.wf(), self.read.data() == old(self).read.data(),
+            invariant self.pinv(), self.same_doc(old(self)), self.same_cache(old(self)), self.read.idx() >= old(self).read.idx(),
                 self.read.idx() <= self.read.data().len(),
                 number_end(old(self).read.data(), old(self).read.idx() - 1) == num_tail(self.read.data(), self.read.idx() as int, true),
             decreases self.read.data().len() - self.read.idx(),
@@ -114,11 +115,11 @@
 
 //@extract file=src/parser.rs impl="Parser<R>" fn=skip_number
 //@sig
-        requires old(self).read.wf(), old(self).read.idx() >= 1,
-            old(self).read.idx() <= old(self).read.data().len(),
+        requires old(self).pinv(), old(self).read.idx() >= 1,
             first == old(self).read.data()[old(self).read.idx() - 1],
             first == 0x2d || is_digit(first),
-        ensures final(self).read.wf(), final(self).read.data() == old(self).read.data(),
+        ensures final(self).pinv(), final(self).same_doc(old(self)), final(self).same_cache(old(self)),
+            final(self).read.idx() >= old(self).read.idx(),
             res.is_ok() <==> number_end(old(self).read.data(), old(self).read.idx() - 1).is_some(),
             res.is_ok() ==> final(self).read.idx() == number_end(old(self).read.data(), old(self).read.idx() - 1).unwrap()
                 && str_bytes(res.unwrap()) == old(self).read.data().subrange(old(self).read.idx() - 1, final(self).read.idx() as int),
